@@ -1668,31 +1668,16 @@ func (in *Interp) lookup(fr *Frame, x *ssa.Lookup) Value {
 			if okMerge {
 				res, found = r, f
 			} else {
-				// fork over the candidates
-				var cand []int
+				// decide the candidates one after the other (forks only where both outcomes are feasible)
+				res, found = zero, in.ts.False
 				for i, c := range conds {
-					if !c.IsFalse() {
-						cand = append(cand, i)
+					if c.IsFalse() {
+						continue
 					}
-				}
-				k := in.choose(len(cand) + 1)
-				if k < len(cand) {
-					c := conds[cand[k]]
-					if !in.feasible(c) {
-						panic(pathEnd{"infeasible"})
+					if in.branch(c) {
+						res, found = m.m.vals[i], in.ts.True
+						break
 					}
-					in.assume(c)
-					res, found = m.m.vals[cand[k]], in.ts.True
-				} else {
-					none := in.ts.True
-					for _, i := range cand {
-						none = in.ts.And(none, in.ts.Not(conds[i]))
-					}
-					if !in.feasible(none) {
-						panic(pathEnd{"infeasible"})
-					}
-					in.assume(none)
-					res, found = zero, in.ts.False
 				}
 			}
 		}
